@@ -114,6 +114,8 @@ func (e *Engine) assertLemma(vc *VC, f *frame, li *lemmaInfo) {
 	vars, binds := f.bindParams(li.c.Params, li.pkg, true, nil)
 	st := &bstate{alive: "true", heap: map[string]string{}, alloc: "1", ghost: map[string]TV{}}
 	env := &Env{f: f, vars: vars, st: st, pkg: li.pkg}
+	f.boundDepth++
+	defer func() { f.boundDepth-- }()
 	var reqs, ens, pats []string
 	for _, r := range li.c.Requires {
 		reqs = append(reqs, f.transBool(r.Expr, env))
